@@ -263,6 +263,25 @@ def run(tier, seed, workers):
     items, nstates = sequential_items(seed, tier)
     cs = pmap(sequential_item, items, workers, chunksize=8)
     conc = Counter()
+    # sequential arrivals (each peer connects when the previous one has its verdict) under all schedules with <= 1 deviation: the
+    # accept loop, the verdict signal and the seat threads may still interleave in every way that one delay allows
+    A_, B_, Z_ = TEAMS
+    for reqs in ([('N', A_, 18), ('E', B_, 18), ('S', A_, 18), ('W', B_, 18)],
+                 [('W', Z_, 18), ('W', A_, 18), ('S', B_, 17), ('N', B_, 18), ('S', B_, 18), ('E', A_, 18), ('E', Z_, 18)]):
+        plan = plan_for(seed)
+        verdicts, table = run_reference(reqs)
+
+        def factory(reqs=reqs, verdicts=verdicts, table=table, plan=plan):
+            cl = [session.ClientSpec(f'c{i}-{r[0]}{TEAMS.index(r[1])}v{r[2]}', r[0], client_script(r, v, table, plan), gate=i)
+                  for i, (r, v) in enumerate(zip(reqs, verdicts)) if v != 'ignored']
+            return session.scripted_setup([plan], cl)
+
+        def jd(x, c, choices, reqs=reqs, verdicts=verdicts):
+            c.see('status', x.status)
+            names = [f'c{i}-{r[0]}{TEAMS.index(r[1])}v{r[2]}' for i, (r, v) in enumerate(zip(reqs, verdicts)) if v != 'ignored']
+            judge_common(x, c, {'kind': 'admission-seq', 'requests': [list(r) for r in reqs], 'seed': seed, 'choices': list(x.choices)}, 'sequential-with-one-delay', reqs, verdicts, names)
+        explore.bounded(explore.Ctx(factory, jd, horizon=500_000), 1 if tier == 'quick' else 2, workers, conc)
+        conc.inc('sequential_sets_under_schedules')
     for reqs in concurrent_sets(seed):
         ctx = concurrent_ctx(reqs, seed)
         explore.bounded(ctx, 1 if tier == 'quick' else 2, workers, conc)
@@ -292,7 +311,14 @@ def run(tier, seed, workers):
 def replay(d):
     c = Counter()
     reqs = [tuple(r) for r in d['requests']]
-    if d['kind'] == 'admission-seq':
+    if d['kind'] == 'admission-seq' and d.get('choices'):
+        plan = plan_for(d['seed'])
+        verdicts, table = run_reference(reqs)
+        cl = [session.ClientSpec(f'c{i}-{r[0]}{TEAMS.index(r[1])}v{r[2]}', r[0], client_script(r, v, table, plan), gate=i)
+              for i, (r, v) in enumerate(zip(reqs, verdicts)) if v != 'ignored']
+        x = world.execute(session.scripted_setup([plan], cl), prims.ReplayPolicy(d['choices']), horizon=500_000)
+        judge_common(x, c, d, 'replay', reqs, verdicts, [s.name for s in cl])
+    elif d['kind'] == 'admission-seq':
         c = sequential_item((reqs, d['seed'], 0, d.get('hold', False)))
     else:
         ctx = concurrent_ctx(reqs, d['seed'])
